@@ -36,6 +36,9 @@ def cases(tier, seed):
             yield {"kind": "poly", "num_locs": nl, "regime": regime, "batch": b, "dist": dtype, "seed": rnd.randrange(10**6)}
         for lik, nl, b in itertools.product(["laplace", "studentt", "beta", "bernoulli"], [5, 20, 32], [[], [2]]):
             yield {"kind": "lik", "lik": lik, "num_locs": nl, "batch": b, "seed": rnd.randrange(10**6)}
+            if lik in ("laplace", "studentt"):
+                # outlying observations: marginal densities far below machine epsilon (log densities around -40 .. -100)
+                yield {"kind": "lik", "lik": lik, "num_locs": nl, "batch": b, "outlier": True, "seed": rnd.randrange(10**6)}
         for b in ([], [2], [3, 2]):
             yield {"kind": "bernoulli", "batch": b, "seed": rnd.randrange(10**6)}
         yield {"kind": "truncation", "lik": "laplace", "seed": rnd.randrange(10**6)}
@@ -254,6 +257,9 @@ def _lik(case, ctx, g):
         y = (util.rand(g, *b, n) > 0.5).double()
     else:
         y = m + util.randn(g, *b, n)
+    if case.get("outlier"):
+        sc = lik.noise.detach().sqrt().expand(*b, 1) if b else lik.noise.detach().sqrt().reshape(1)
+        y = m + (80.0 if case["lik"] == "laplace" else 1e7) * sc * torch.sign(util.randn(g, *b, n))
     with torch.no_grad():
         elp = lik.expected_log_prob(y, d)
         lm = lik.log_marginal(y, d)
@@ -264,7 +270,7 @@ def _lik(case, ctx, g):
         nb *= s
     yf, mf, vf = y.reshape(nb, n), m.reshape(nb, n), v.reshape(nb, n)
     elpf, lmf = elp.reshape(nb, n), lm.reshape(nb, n)
-    cls = f"{case['lik']}:n{case['num_locs']}"
+    cls = f"{case['lik']}:n{case['num_locs']}" + (":outlier" if case.get("outlier") else "")
     for bi in range(nb):
         ld = _logdens(case, lik, bi)
         for i in range(n):
